@@ -63,8 +63,9 @@ def generate_gen():
         (BUILD / "Common.lean").write_text("import Spec\nimport Gen\n" + (LEAN_DIR / "Common.lean").read_text())
         rc2, out2, secs2 = _lean(["-o", str(BUILD / "Common.olean"), str(BUILD / "Common.lean")])
         res["common_rc"], res["common_out"] = rc2, out2
-        from .py2lean import range_theorems, RECORDS
+        from .py2lean import range_theorems, dim_theorems, RECORDS, DIM_RECORDS
         res["range_text"] = range_theorems(RECORDS)
+        res["dim_text"] = dim_theorems(DIM_RECORDS)
     return res
 
 
@@ -96,6 +97,9 @@ def run(files, pid):
         if f == "@range":
             src = "open Finset Real Spec Gen\nset_option linter.unusedVariables false\nvariable {n : ℕ} [NeZero n]\n\n" + gen.get("range_text", "")
             f = "Range.lean"
+        elif f == "@dim":
+            src = "open Finset Real Spec Gen\nset_option linter.unusedVariables false\nvariable {n : ℕ} [NeZero n]\n\n" + gen.get("dim_text", "")
+            f = "Dim.lean"
         else:
             src = (LEAN_DIR / f).read_text()
         for bad in ("sorry", "admit", "native_decide"):
